@@ -27,4 +27,4 @@ Definition guard_bitbucket_repo_event : bool := true.
 Definition hit_green_only_github : bool := true.
 Definition hit_green_only_bitbucket : bool := true.
 (* github Repository.get_commit_status keeps a SUCCESSFUL entry when it refreshes the cache *)
-Definition keep_green_get_commit_status : bool := false.
+Definition keep_green_get_commit_status : bool := true.
